@@ -79,6 +79,16 @@ def build_pool(ctx, scratch):
         pool.append(('pair%d-%06d-v%d' % (pi, pair[0], pair[1]), ma.bytes, None))
         pool.append(('pair%d-%06d-v%d' % (pi, pair[0], pair[2]), mb.bytes, None))
         ctx.count('version_sensitive_pairs_in_pool')
+    lpairs = cases.local_sensitive_pairs()
+    if lpairs:
+        lp = rng.choice(lpairs)
+        try:
+            ids, (ma, mb) = cases.local_pair_messages(rng, lp)
+            pool.append(('lpair-%06d-l%d' % (lp[0], lp[1][2]), ma.bytes, None))
+            pool.append(('lpair-%06d-l%d' % (lp[0], lp[2][2]), mb.bytes, None))
+            ctx.count('local_table_pairs_in_pool')
+        except (R.Unsupported, KeyError):
+            pass
     # every shard covers all versions across its histories: messages over many versions
     for v in versions:
         if len(pool) >= n * 2 // 3:
